@@ -21,7 +21,7 @@ def fmt_op(o):
         return f"cv_wait(cv{o['o']},m{o['v']},g{o['w']})"
     if k in ("set_flag", "await_flag", "wake_only", "reg_flag"):
         return f"{k}(f{o['o']})"
-    if k in ("yield", "spin", "sleep", "park", "nop", "rand", "reset_steps", "scope_begin", "scope_end", "tid", "name", "me", "ayield", "suspend", "bo_begin", "bo_end"):
+    if k in ("yield", "spin", "sleep", "park", "nop", "rand", "reset_steps", "scope_begin", "scope_end", "tid", "name", "me", "ayield", "suspend", "bo_begin", "bo_end", "label_get"):
         return k
     return f"{k}(o{o['o']},v{o['v']},w{o['w']})"
 
